@@ -211,16 +211,16 @@ Fixpoint run (c : mem_cfg) (ps : list port) (m : memory) (cycles : list (list po
 Definition arr := N -> bv.
 Definition arr_upd (f : arr) (a : N) (d : bv) : arr := fun x => if N.eqb x a then d else f x.
 
-(* fully defined port inputs *)
-Record aport_in := MkApin { ai_addr : N; ai_ren : bool; ai_wen : bool; ai_wdata : bv }.
+(* fully defined port inputs: address, port enable, write enable, write data *)
+Record aport_in := MkApin { ai_addr : N; ai_en : bool; ai_wen : bool; ai_wdata : bv }.
 
 (* the ports act one after the other in declaration order on the array *)
 Fixpoint spec_ports (w : nat) (f : arr) (ps : list port) (ins : list aport_in)
   : list (option bv) * arr :=
   match ps, ins with
   | pt :: ps', i :: ins' =>
-    let rd := if p_read pt then Some (if ai_ren i then f (ai_addr i) else all_X w) else None in
-    let f' := if p_write pt && ai_wen i then arr_upd f (ai_addr i) (ai_wdata i) else f in
+    let rd := if p_read pt then Some (if ai_en i then f (ai_addr i) else all_X w) else None in
+    let f' := if p_write pt && ai_en i && ai_wen i then arr_upd f (ai_addr i) (ai_wdata i) else f in
     let '(rds, f'') := spec_ports w f' ps' ins' in
     (rd :: rds, f'')
   | _, _ => ([], f)
@@ -236,12 +236,14 @@ Fixpoint spec_run (w : nat) (ps : list port) (f : arr) (cycles : list (list apor
     (rds :: out, f'')
   end.
 
-(* embedding of defined inputs into pin values *)
-Definition pin_of (c : mem_cfg) (pt : port) (i : aport_in) : port_in :=
-  MkPin (Some (bv_of_N (c_abits c) (ai_addr i)))
-        (if p_read pt then Some (of_bool (ai_ren i)) else None)
-        (if p_write pt then Some (of_bool (ai_wen i)) else None)
-        (if p_write pt then Some (ai_wdata i) else None).
+(* a pin valuation that presents the defined inputs [i]: enables either carry the value or are not
+   connected (= enabled, the frontend's normal case) *)
+Definition en_rel (b : bool) (e : option tbit) : Prop :=
+  e = Some (of_bool b) \/ (e = None /\ b = true).
+Definition pin_rel (c : mem_cfg) (i : aport_in) (pin : port_in) : Prop :=
+  pi_addr pin = Some (bv_of_N (c_abits c) (ai_addr i)) /\
+  en_rel (ai_en i) (pi_en pin) /\ en_rel (ai_wen i) (pi_wren pin) /\
+  pi_wdata pin = Some (ai_wdata i).
 
 Definition arr_of (w : nat) (m : memory) : arr := fun a => word_at w m a.
 
@@ -249,18 +251,24 @@ Definition arr_of (w : nat) (m : memory) : arr := fun a => word_at w m a.
    post-processed circuits: defined stimulus, but addresses may be out of range and the memory may
    have been declared noConflicts.  An all-X word means "the specification allows anything". *)
 
-Definition tspec_step (w : nat) (depth : N) (noconf : bool) (start : arr) (wrote : list N)
-  (f : arr) (pt : port) (i : aport_in) : option bv * arr * list N :=
+Definition count_N (a : N) (l : list N) : nat := length (filter (N.eqb a) l).
+
+(* cyc_writes: addresses of all enabled in-range writes of this cycle (needed for noConflicts
+   memories only, where ports are unordered: a read that meets any write of the same cycle, or two
+   writes that meet, are legitimately undefined) *)
+Definition tspec_step (w : nat) (depth : N) (noconf : bool) (start : arr) (cyc_writes : list N)
+  (f : arr) (pt : port) (i : aport_in) : option bv * arr :=
   let a := ai_addr i in
   let inr := (a <? depth)%N in
-  let hit := existsb (N.eqb a) wrote in
   let rd := if p_read pt then
-              Some (if ai_ren i && inr then (if noconf then (if hit then all_X w else start a) else f a)
+              Some (if ai_en i && inr then
+                      (if noconf then (if existsb (N.eqb a) cyc_writes then all_X w else start a) else f a)
                     else all_X w)
             else None in
-  let dow := p_write pt && ai_wen i && inr in
-  let f' := if dow then arr_upd f a (if noconf && hit then all_X w else ai_wdata i) else f in
-  (rd, f', if dow then a :: wrote else wrote).
+  let dow := p_write pt && ai_en i && ai_wen i && inr in
+  let f' := if dow then arr_upd f a (if noconf && (2 <=? count_N a cyc_writes)%nat then all_X w else ai_wdata i)
+            else f in
+  (rd, f').
 
 (* ------------------------------------------------------------------ read latency: L registers
    behind the asynchronous read (frontend: reg(mem[addr]) L times; no reset, no enable) *)
